@@ -98,12 +98,25 @@ func applyJSON(doc document.Document, entry interface{}) (document.Document, err
 		return nil, err
 	}
 
-	docBytes, err = jsonPatches.Apply(docBytes)
+	docBytes, err = applyJSONPatches(jsonPatches, docBytes)
 	if err != nil {
 		return nil, err
 	}
 
 	return document.FromBytes(docBytes)
+}
+
+// applyJSONPatches applies the RFC 6902 operations. The patch library panics on some malformed
+// operations (e.g. a negative array index in a test, replace or copy operation, or a test operation
+// without value against a missing member); such an operation must fail like any other invalid patch.
+func applyJSONPatches(jsonPatches jsonpatch.Patch, docBytes []byte) (result []byte, err error) {
+	defer func() {
+		if r := recover(); r != nil {
+			result, err = nil, fmt.Errorf("failed to apply json patch: %v", r)
+		}
+	}()
+
+	return jsonPatches.Apply(docBytes)
 }
 
 func applyRecover(replaceDoc interface{}) (document.Document, error) {
